@@ -245,6 +245,7 @@ LIFECYCLE_TEXTS = [
     'def e1 { splitters: uid /* c */ if uid == "u1" { return "P" weighted 1 } else { return "Q" weighted 1 } }',
     'def e1 { salt: "a  b" splitters: uid return "A" weighted 1, "B" weighted 1, "C" weighted 1 }',
     'def e1 { salt: "a b" splitters: uid return "A" weighted 1, "B" weighted 1, "C" weighted 1 }',
+    'def e1 { splitters: uid return "A" weighted 1, "B" weighted 1 $ }',
     'def e1 { return "A" weighted }',
     'def',
     'def e1 { splitters: uid return "A" weighted 1, "B" weighted 1 ',
